@@ -246,6 +246,10 @@ def draw_system(rng, seed: int, prop: str, *, families=("single",) * 6 + ("cross
             params["n_pca_modes"] = ["all", "all"]
             params["n_modes"] = max(2, min(5, rk[0], rk[1]))
     cfg["rot_params"] = models.draw_rotator_params(rng, params, lazy=True if lazy else (False if dask_eager else None)) if spec.rotator else None
+    if lazy and cfg["rot_params"] and fam == "single" and rng.random() < 0.3:
+        # an *eager* rotator on a deferred model: rotator.fit itself computes (one bool() per iteration on a growing
+        # graph, hence the bounded iteration count and the coarse rtol) - and can therefore be interrupted
+        cfg["rot_params"].update(compute=True, max_iter=40, rtol=1e-4)
     if dask_eager and cfg["rot_params"] and fam == "cross":
         # an eager rotation of loadings that are still lazy (cross-set PCA / whitener matrices are never computed by
         # fit) evaluates a growing graph per iteration: bounded; "did not converge" is not judged
